@@ -86,6 +86,13 @@ from .backend.reduction import set_loky_pickler, get_loky_pickler_name
 from .backend.utils import kill_process_tree, get_exitcodes_terminated_worker
 from .initializers import _prepare_initializer
 
+if os.environ.get("LOKY_VERIF"):
+    from ._verif_hooks import point as _verif_point
+else:
+
+    def _verif_point(label, **ctx):
+        return None
+
 
 # Mechanism to prevent infinite process spawning. When a worker of a
 # ProcessPoolExecutor nested in MAX_DEPTH Executor tries to create a new
@@ -429,6 +436,7 @@ def _process_worker(
             workers timeout.
         current_depth: Nested parallelism level, to avoid infinite spawning.
     """
+    _verif_point("worker.start")
     if initializer is not None:
         try:
             initializer(*initargs)
@@ -438,6 +446,7 @@ def _process_worker(
             # mark the pool broken
             return
 
+    _verif_point("worker.init_done")
     # set the global _CURRENT_DEPTH mechanism to limit recursive call
     global _CURRENT_DEPTH
     _CURRENT_DEPTH = current_depth
@@ -451,11 +460,14 @@ def _process_worker(
     while True:
         try:
             call_item = call_queue.get(block=True, timeout=timeout)
+            _verif_point("worker.got_item")
             if call_item is None:
                 mp.util.info("Shutting down worker on sentinel")
         except queue.Empty:
             mp.util.info(f"Shutting down worker after timeout {timeout:0.3f}s")
+            _verif_point("worker.timeout")
             if processes_management_lock.acquire(block=False):
+                _verif_point("worker.mgmt_lock_held")
                 processes_management_lock.release()
                 call_item = None
             else:
@@ -473,8 +485,11 @@ def _process_worker(
             sys.exit(1)
         if call_item is None:
             # Notify queue management thread about worker shutdown
+            _verif_point("worker.before_announce")
             result_queue.put(pid)
+            _verif_point("worker.announced")
             is_clean = worker_exit_lock.acquire(True, timeout=30)
+            _verif_point("worker.exit_lock_acquired")
 
             # Early notify any loky executor running in this worker process
             # (nested parallelism) that this process is about to shutdown to
@@ -486,6 +501,7 @@ def _process_worker(
             else:
                 mp.util.info("Main process did not release worker_exit")
             return
+        _verif_point("worker.before_call")
         try:
             r = call_item()
         except BaseException as e:
@@ -495,6 +511,7 @@ def _process_worker(
             _sendback_result(result_queue, call_item.work_id, result=r)
             del r
 
+        _verif_point("worker.result_sent")
         # Free the resource as soon as possible, to avoid holding onto
         # open files or shared memory that is not needed anymore
         del call_item
@@ -679,6 +696,7 @@ class _ExecutorManagerThread(threading.Thread):
         readers = [result_reader, wakeup_reader]
         worker_sentinels = [p.sentinel for p in list(self.processes.values())]
         ready = wait(readers + worker_sentinels)
+        _verif_point("mgr.after_wait")
 
         bpe = None
         is_broken = True
@@ -818,6 +836,7 @@ class _ExecutorManagerThread(threading.Thread):
         # argument can be used to display more information on the error that
         # lead the executor into becoming broken.
 
+        _verif_point("mgr.terminate_broken")
         # Mark the process pool broken so that submits fail right now.
         self.executor_flags.flag_as_broken(bpe)
 
@@ -884,6 +903,7 @@ class _ExecutorManagerThread(threading.Thread):
 
     def shutdown_workers(self):
         # shutdown all workers in self.processes
+        _verif_point("mgr.shutdown_workers")
 
         # Create a list to avoid RuntimeError due to concurrent modification of
         # processes. nb_children_alive is thus an upper bound. Also release the
@@ -928,6 +948,7 @@ class _ExecutorManagerThread(threading.Thread):
                     break
 
         mp.util.debug(f"sent {n_sentinels_sent} sentinels to the call queue")
+        _verif_point("mgr.sentinels_sent")
 
     def join_executor_internals(self):
         self.shutdown_workers()
@@ -951,6 +972,7 @@ class _ExecutorManagerThread(threading.Thread):
 
         # If .join() is not called on the created processes then
         # some ctx.Queue methods may deadlock on macOS.
+        _verif_point("mgr.join")
         with self.processes_management_lock:
             mp.util.debug(f"joining {len(self.processes)} processes")
             n_joined_processes = 0
